@@ -4,10 +4,10 @@ package main
 // Every random choice derives from one PCG state so that a case is reproducible from (seed, index).
 
 import (
-	"strings"
 	"fmt"
 	"math/rand/v2"
 	"sort"
+	"strings"
 )
 
 type M = map[string]any
@@ -280,6 +280,13 @@ func (g *Gen) Schema(depth int) M {
 		s["allOf"] = mem
 		if g.p(0.3) {
 			s["type"] = "object"
+		}
+	}
+	if g.p(0.04) {
+		// explicitly empty containers (they load as empty, non-nil Go slices / maps): no allOf member, no property
+		if _, has := s["allOf"]; !has {
+			s["allOf"] = []any{}
+			g.hit("schema:empty-allOf")
 		}
 	}
 	if depth > 0 && g.p(g.Exotic) {
